@@ -1100,7 +1100,9 @@ fn build_query_options(
                 (
                     [
                         prefix.clone(),
-                        vec![0xff; MAX_PREFIX_SEARCH_SIZE - args_len],
+                        // at least one 0xff, even when args_len == MAX_PREFIX_SEARCH_SIZE: the start
+                        // key must be greater than any key `prefix + block_number + ...`
+                        vec![0xff; MAX_PREFIX_SEARCH_SIZE - args_len + 1],
                     ]
                     .concat(),
                     Direction::Reverse,
